@@ -8,6 +8,7 @@ from hypothesis import strategies as st
 from pbt import ci as cim, im as imm, ti as tim, manifests as mf, downconvert as dc
 from pbt.props.c01 import diff
 from pbt.runner import must, check, Violation, REPO
+from pbt.poison import poison
 
 PROPERTY = "C05"
 LEVEL = "exploration"
@@ -52,6 +53,7 @@ def upgrade_cycle(kind, cls, old_text, snap_fn, want, type_name, dump=None):
     check(d is None, "reload-differs[%s]" % kind, lambda: "%s: object re-read from the upgraded file differs: %s" % (kind, d))
     second = must("second-dump[%s]" % kind, dump, again)
     check(second == first, "conversion-not-idempotent[%s]" % kind, "%s: second dump differs from the first" % kind)
+    poison(obj), poison(again)
     return first
 
 
